@@ -62,7 +62,7 @@ ASSUMPTIONS = [
     'worker scheduling itself is not controlled (DESIGN section 5): the differential is over outcomes for worker counts and task orders',
     'known defects of C11 are matched by their own signatures: every valid LIS file fails (C11-lis-null-value)',
 ]
-SHARDS = {'quick': 4, 'thorough': 16}
+SHARDS = {'quick': 4, 'thorough': 6}     # each case starts pools of up to 16 workers: more shards only oversubscribe the machine
 REQUIRED_CLASSES = {'sub-directories:two-levels-down-recursive': 1, 'input-is-a-symbolic-link': 1, 'directories-given-as-relative-paths': 1, 'name-begins-with-the-whole-name-of-a-bad-file': 1, 'dot-name': 1, 'nontrivial': 1, 'jobs>1': 1, 'foreign-file': 1, 'damaged-sorts-first:names': 1, 'damaged-sorts-first:sizes': 1, 'empty-file': 1,
                     'converter:RP66V1': 1, 'converter:LIS': 1, 'converter:BIT': 1, 'orders-differ': 1}
 
@@ -277,7 +277,7 @@ def reap():
             p.join(5)
 
 
-def guarded(fn, limit_s=120):
+def guarded(fn, limit_s=600):
     """(value, exception) of fn() under a watchdog."""
     old = signal.signal(signal.SIGALRM, _alarm)
     signal.setitimer(signal.ITIMER_REAL, limit_s)
@@ -544,7 +544,7 @@ def describe(f):
 
 def report_escape(dev, err, where, kind):
     if isinstance(err, Timeout):
-        dev(O_TERM, 'timeout:' + kind, '%s: no result after 120 s' % where)
+        dev(O_TERM, 'timeout:' + kind, '%s: no result after 600 s' % where)
         return
     if not engine.sut_frames(err):
         raise HarnessError('exception outside the code under test: %r (%s)' % (err, where)) from err
